@@ -155,3 +155,14 @@ Proof.
     exfalso. destruct (atom_token_read a (Hatoms _ _ _ _ Ea)) as (tok' & Et' & F' & _). rewrite Et in Et'. inversion Et'; subst. destruct F'.
 Qed.
 End Tok.
+
+(* ---------- all fragments ---------- *)
+Fixpoint rtoks (m : dmol) (rs : list nat) (log : list (nat * nat)) : res (list stok * list (nat * nat)) :=
+  match rs with
+  | [] => Ok ([], log)
+  | r :: rest =>
+    do (ts, log2) <- atoks (S (length (atoms m))) m r log;
+    do (ts', log3) <- rtoks m rest log2;
+    Ok (match rest with [] => ts | _ => ts ++ RDot :: ts' end, log3)
+  end.
+
